@@ -124,7 +124,10 @@ func TestC16(t *testing.T) {
 					continue
 				}
 				f.Reset()
-				val := mkValue(uint32(vl*7+kl), vl)
+				// what the value consists of must not matter to the layout either: a third
+				// of the stores carry all-zero values or values with zero tails
+				shape := []int{0, 0, 1, 0, 2, 0, 3, 0, 4}[(kl*3+vl+len(path))%9]
+				val := shapeValue(mkValue(uint32(vl*7+kl), vl), shape)
 				flags := uint32(vl ^ kl<<8)
 				// the expiry asked for must not matter to how an item is laid out
 				ttl := ttlOf((kl+vl+len(path))%len(ttlClassNames), nowUnix())
@@ -275,7 +278,7 @@ func TestC16Replay(t *testing.T) {
 	key := strings.Repeat("k", c.Keylen)
 	h, f := newChunked()
 	f.LogValues = true
-	val := mkValue(uint32(c.Valuelen*7+c.Keylen), c.Valuelen)
+	val := shapeValue(mkValue(uint32(c.Valuelen*7+c.Keylen), c.Valuelen), []int{0, 0, 1, 0, 2, 0, 3, 0, 4}[(c.Keylen*3+c.Valuelen+len(c.Path))%9])
 	if c.Path == "append" || c.Path == "prepend" {
 		execHandler(h, wire.Cmd{Kind: wire.Set, Key: key, Value: val[:c.Valuelen/3], Flags: 9}, 0)
 		f.ResetLog()
